@@ -1,2 +1,10 @@
 //! Engine E2 — stub lifecycle ↔ real buildpack executable (C05, C06, C20, phase part of C12).
+pub mod c05;
+pub mod c06;
+pub mod c20;
+pub mod common;
 pub mod faults;
+pub mod lifecycle;
+pub mod bp;
+pub mod script;
+pub mod tval;
